@@ -37,14 +37,14 @@ Proof.
   apply existsb_exists in H as (x & Hx & E). apply N.eqb_eq in E. subst x. exact Hx.
 Qed.
 
-Definition chk_core_eqb (a b : chk) : bool := bool_decide (chk_core a = chk_core b).
+Definition chk_core_eqb (blank : bool) (a b : chk) : bool := bool_decide (chk_core_upto blank a = chk_core_upto blank b).
 
 Definition honestb (st : lstate) (c : cat) : bool :=
   forallb_kv (fun id e => negb (se_sync e) || se_del e ||
                           match se_def e with Some d => bool_decide (c_svcs c !! id = Some d) | None => true end) (l_svcs st)
   && forallb_kv (fun id e => negb (ce_sync e) || ce_del e ||
                              match ce_def e, c_chks c !! id with
-                             | Some d, Some r => chk_core_eqb r d
+                             | Some d, Some r => chk_core_eqb (ce_defer e) r d
                              | Some _, None => false
                              | None, _ => true
                              end) (l_chks st).
@@ -61,13 +61,14 @@ Qed.
 
 (* ------------------------------------------------------------------ the cast *)
 
-Definition g0 : cfg := Cfg 1 0 0 1 9 9.
+Definition g0 : cfg := Cfg 1 0 0 1 9 9 false.
+Definition g0d : cfg := Cfg 1 0 0 1 9 9 true.   (* CheckUpdateInterval > 0 *)
 Definition web : svc := Svc 1 1 false 0 true [] [].
 Definition web_eto : svc := Svc 1 1 true 0 true [] [].
 Definition web_drift : svc := Svc 1 2 false 1 false [] [(11, 1)]%N.
 Definition db : svc := Svc 2 0 false 0 false [(1, 1)]%N [].
-Definition chk_web : chk := Chk 1 1 0 0 1 1.
-Definition chk_db : chk := Chk 2 1 0 0 2 0.
+Definition chk_web : chk := Chk 1 1 0 0 1 1 0.
+Definition chk_db : chk := Chk 2 1 0 0 2 0 0.
 Definition all_s : list N := [1; 2; 3; 4; 9]%N.
 Definition all_c : list N := [1; 2; 3; 4; 5; 6; 9]%N.
 
@@ -214,4 +215,81 @@ Proof.
   intros [Hs _]. specialize (Hs 3%N (SE (Some db) 4 true false true) db).
   assert (X : holds_svc (snd (state_of h_rich [OOk; OOk; OOk; OOk; OOk; ODenied; OFail])) 3 db) by (apply Hs; vm_compute; reflexivity).
   vm_compute in X. discriminate.
+Qed.
+
+(* ------------------------------------------------------------------ the two exceptions to "the catalog equals the local state" *)
+
+Definition chk_web_out2 : chk := Chk 1 1 2 0 1 1 0.
+Definition chk_web_aux1 : chk := Chk 1 1 0 0 1 1 1.
+
+(* CheckUpdateInterval > 0 (the agent's default): "web" with a check is synced, then the check's
+   Output changes (status unchanged): UpdateCheck defers the push and starts a timer *)
+Definition h_defer : list step :=
+  [SAddSvc 1 web 0 false [(1%N, chk_web)]; SSyncFull all_s all_c; SUpdChk 1 1 2].
+(* a check is re-registered with only its Type/Interval/Timeout/ExposedPort changed *)
+Definition h_aux : list step :=
+  [SAddSvc 1 web 0 false [(1%N, chk_web)]; SSyncFull all_s all_c; SAddChkAgent 1 chk_web_aux1 0 false].
+
+Definition state_of_g (g : cfg) (h : list step) (fs : list outcome) : lstate * cat :=
+  let '(st, c, _) := run_hist g h lstate0 cat0 fs in (st, c).
+
+Lemma state_of_g_wf g h fs : List.Forall static_ok h -> wf_local (fst (state_of_g g h fs)) /\ wf_cat (snd (state_of_g g h fs)).
+Proof.
+  intros H. unfold state_of_g. destruct (run_hist g h lstate0 cat0 fs) as [[st c] fs'] eqn:E.
+  exact (wf_reachable _ _ _ _ _ _ (static_agent_hist g h _ _ fs H) E).
+Qed.
+
+(* a fault-free full sync then "converges" while the catalog's Output differs from the local one:
+   the check is in sync, a timer is pending, and the catalog does not hold the definition exactly *)
+Theorem deferred_output_refuted :
+  exists g os oc st c st' c' fs' log err,
+    wf_local st /\ wf_cat c /\ bind_ok st c /\
+    covers (l_svcs st) os /\ covers (c_svcs c) os /\ covers (l_chks st) oc /\ covers (c_chks c) oc /\
+    sync_full g os oc st c [] = (st', c', fs', log, err) /\ err = false /\
+    exists id e d, l_chks st' !! id = Some e /\ ce_def e = Some d /\ ce_sync e = true /\ ce_del e = false /\
+                   ce_defer e = true /\ ~ holds_chk c' id d.
+Proof.
+  set (r := sync_full g0d all_s all_c (fst (state_of_g g0d h_defer [])) (snd (state_of_g g0d h_defer [])) []).
+  exists g0d, all_s, all_c, (fst (state_of_g g0d h_defer [])), (snd (state_of_g g0d h_defer [])).
+  exists (fst (fst (fst (fst r)))), (snd (fst (fst (fst r)))), (snd (fst (fst r))), (snd (fst r)), (snd r).
+  assert (S : List.Forall static_ok h_defer) by static_tac.
+  split; [exact (proj1 (state_of_g_wf _ _ _ S))|]. split; [exact (proj2 (state_of_g_wf _ _ _ S))|].
+  split; [apply bind_okb_ok; vm_compute; reflexivity|].
+  repeat (split; [apply coversb_ok; vm_compute; reflexivity|]).
+  split; [fold r; destruct r as [[[[? ?] ?] ?] ?]; reflexivity|]. split; [vm_compute; reflexivity|].
+  exists 1%N. eexists _, _. split; [vm_compute; reflexivity|]. repeat (split; [reflexivity|]).
+  intros (x & Lx & Ex). vm_compute in Lx. injection Lx as <-. vm_compute in Ex. discriminate.
+Qed.
+
+(* the same for the fields HealthCheck.IsSame does not compare: after a fault-free full sync the
+   entry is in sync, no timer is pending, and the catalog row carries the OLD Type/Interval/... *)
+Theorem ignored_fields_refuted :
+  exists g os oc st c st' c' fs' log err,
+    wf_local st /\ wf_cat c /\ bind_ok st c /\
+    covers (l_svcs st) os /\ covers (c_svcs c) os /\ covers (l_chks st) oc /\ covers (c_chks c) oc /\
+    sync_full g os oc st c [] = (st', c', fs', log, err) /\ err = false /\
+    exists id e d r, l_chks st' !! id = Some e /\ ce_def e = Some d /\ ce_sync e = true /\ ce_del e = false /\
+                     ce_defer e = false /\ c_chks c' !! id = Some r /\ ck_aux r <> ck_aux d.
+Proof.
+  set (r := sync_full g0 all_s all_c (fst (state_of_g g0 h_aux [])) (snd (state_of_g g0 h_aux [])) []).
+  exists g0, all_s, all_c, (fst (state_of_g g0 h_aux [])), (snd (state_of_g g0 h_aux [])).
+  exists (fst (fst (fst (fst r)))), (snd (fst (fst (fst r)))), (snd (fst (fst r))), (snd (fst r)), (snd r).
+  assert (S : List.Forall static_ok h_aux) by static_tac.
+  split; [exact (proj1 (state_of_g_wf _ _ _ S))|]. split; [exact (proj2 (state_of_g_wf _ _ _ S))|].
+  split; [apply bind_okb_ok; vm_compute; reflexivity|].
+  repeat (split; [apply coversb_ok; vm_compute; reflexivity|]).
+  split; [fold r; destruct r as [[[[? ?] ?] ?] ?]; reflexivity|]. split; [vm_compute; reflexivity|].
+  exists 1%N. eexists _, _, _. split; [vm_compute; reflexivity|]. repeat (split; [reflexivity|]).
+  split; [vm_compute; reflexivity|]. vm_compute. discriminate.
+Qed.
+
+(* once the timer has fired, a fault-free partial sync pushes the Output and the catalog holds
+   the definition exactly *)
+Theorem deferred_output_after_timer :
+  let st := fst (state_of_g g0d (h_defer ++ [STimer 1; SSyncChanges all_s all_c]) []) in
+  let c := snd (state_of_g g0d (h_defer ++ [STimer 1; SSyncChanges all_s all_c]) []) in
+  exists e, l_chks st !! 1%N = Some e /\ ce_sync e = true /\ ce_defer e = false /\ holds_chk c 1 chk_web_out2.
+Proof.
+  cbn zeta. eexists. split; [vm_compute; reflexivity|]. split; [reflexivity|]. split; [reflexivity|].
+  eexists. split; [vm_compute; reflexivity|]. vm_compute. reflexivity.
 Qed.
